@@ -95,7 +95,9 @@ META = {
         "returns is, on every path, a name for which `name not in registry` was the last decided membership fact - so no "
         "heading's (slug -> section id, title) entry is overwritten. "
         "The resolver reads that registry through the same access path below the environment as the renderer saved it, and "
-        "the env-level copy accumulates (the entries an earlier parse of the same document saved are merged in before the "
+        "the table saved in the environment is the same object as document.myst_slugs (not a copy - the later title refresh "
+        "goes through document.myst_slugs) unless a later writer stores into the environment's table directly, it "
+        "accumulates (the entries an earlier parse of the same document saved are merged in before the "
         "store, or the saved table is updated in place), and "
         "the element of the entry that the resolver passes to make_refnode as target id is read from the section node's "
         "assigned ids (node['ids'] / nameids), not recomputed from the heading text (make_id, slug functions); the title "
@@ -3297,8 +3299,8 @@ def r8_slug_registry_no_overwrite(corpus: Corpus, rep: Report, tier: str):
                 named = any((isinstance(x, ast.Constant) and x.value == "myst_slugs") or (isinstance(x, ast.Attribute) and x.attr == "myst_slugs") for x in ast.walk(t))
                 if named and (dotted(n.value) or "").startswith("self."):
                     reg = dotted(n.value)
-                    if _env_path(t, fin) is not None:
-                        env_writes.append(t)
+                if named and _env_path(t, fin) is not None:
+                    env_writes.append(t)  # whatever the value is: judged below
     inplace = []
     for n in fin.local_nodes():
         # env...setdefault("myst_slugs", {}).update(self._x) / env...["myst_slugs"].update(self._x): accumulates in place
@@ -3316,11 +3318,38 @@ def r8_slug_registry_no_overwrite(corpus: Corpus, rep: Report, tier: str):
     cfg_fin = get_cfg(fin)
     for n in inplace:
         rep.ok("C12.R8", f"{fin.fq}|env.{'.'.join(_env_path(n.func.value, fin))}.update({reg})|entries saved by earlier parts of the document are kept", fin.module.site(n), "updated in place")
+    # the table saved in the environment is the SAME object as document.myst_slugs: the titles are refreshed later
+    # (after the i18n transform) through document.myst_slugs, and cross-document links read the environment's table
+    for w in env_writes:
+        wpth = _env_path(w, fin)
+        wv = parent(w).value if isinstance(parent(w), ast.Assign) else None
+        k = f"{fin.fq}|env.{'.'.join(wpth)}|is the object document.myst_slugs refers to"
+        site = fin.module.site(w)
+        direct = False  # does some later writer (transform) store into the environment's table itself?
+        for f2 in corpus.all_functions():
+            if f2.is_lambda or f2.fq == fin.fq or "myst_slugs" not in f2.module.src or f2.fq.startswith(res.fq.rsplit(".", 1)[0]):
+                continue
+            for stn in f2.local_nodes():
+                if isinstance(stn, ast.Subscript) and isinstance(stn.ctx, ast.Store) and isinstance(stn.value, ast.Name):
+                    if any(pos is None and _env_path(v, f2) == wpth for _, v, pos in assignments_to(f2, stn.value.id)):
+                        direct = True
+        if wv is not None and dotted(wv) == reg:
+            rep.ok("C12.R8", k, site, f"both are {reg}")
+        elif direct:
+            rep.ok("C12.R8", k, site, "a later writer stores into the environment's table directly")
+        elif wv is not None and (isinstance(wv, (ast.Dict, ast.DictComp)) or (isinstance(wv, ast.Call) and ((dotted(wv.func) or "").split(".")[-1] in ("dict", "copy", "deepcopy", "OrderedDict")))) and any((dotted(x) or "") == reg for x in ast.walk(wv)):
+            rep.violation("C12.R8", k, site, f"`{short(parent(w), 70)}` saves a COPY of {reg} in the environment while document.myst_slugs keeps referring to {reg} itself: the titles that ResolveAnchorIds re-reads after the i18n transform (and any later correction made through document.myst_slugs) never reach the table that `[](doc.md#heading)` links from other documents read - translated builds show the source-language title again")
+        else:
+            rep.error("C12.R8", f"_render_finalise: cannot tell whether `{short(wv, 50) if wv is not None else '?'}` saved under env.{'.'.join(wpth)} is the object document.myst_slugs refers to")
     for w in env_writes:
         wpth = _env_path(w, fin)
         wst = cfg_fin.stmt_of(w)
         k = f"{fin.fq}|env.{'.'.join(wpth)} = {reg}|entries saved by earlier parts of the document are kept"
         merged = None
+        wv_ = parent(w).value if isinstance(parent(w), ast.Assign) else None
+        if isinstance(wv_, ast.Dict) and any(kk is None and _env_path(vv, fin) == wpth for kk, vv in zip(wv_.keys, wv_.values)):
+            rep.ok("C12.R8", k, fin.module.site(w), "the saved entries are spread into the new table")
+            continue
         for nd in fin.local_nodes():
             prev = None
             if isinstance(nd, ast.For):
@@ -4164,4 +4193,13 @@ def mutants(corpus: Corpus):
         add("c12-relative-docs-relative-to-source-root", "C12.R10", sx, rp.args[1], "str(self.sphinx_env.srcdir)", expect="document being built")
     else:
         out.append(("c12-relative-docs-relative-to-includer", "relpath call not found"))
+    # class "the environment gets a copy of the slug table, not the object document.myst_slugs refers to"
+    f = bs.func("DocutilsRenderer._render_finalise")
+    stw = find_node(f, lambda n: isinstance(n, ast.Assign) and isinstance(n.targets[0], ast.Subscript) and isinstance(n.targets[0].slice, ast.Constant) and n.targets[0].slice.value == "myst_slugs" and (dotted(n.value) or "").startswith("self."))
+    if stw is not None:
+        v = unparse(stw.value)
+        add("c12-env-slug-table-is-a-copy", "C12.R8", bs, stw.value, f"dict({v})", expect="is the object")
+        add("c12-env-slug-table-is-a-merged-copy", "C12.R8", bs, stw.value, "{**" + unparse(stw.targets[0].value) + '.get("myst_slugs", {}), **' + v + "}", expect="is the object")
+    else:
+        out.append(("c12-env-slug-table-is-a-copy", "env-level store of the slug table not found"))
     return out
